@@ -5,7 +5,7 @@ import vlib
 PROOFS = ["C04/ProofsList.vo", "C04/ProofsPerm.vo", "C04/ProofsDet.vo", "C04/ProofsBS.vo", "C04/ProofsGJ.vo",
           "C04/ProofsGJ2.vo", "C04/ProofsGJ3.vo", "C04/ProofsGJ4.vo", "C04/ProofsSing.vo", "C04/ProofsInv.vo",
           "C04/ProofsDet2.vo", "C04/ProofsEx.vo", "C04/ProofsNaN.vo", "C04/ProofsNaN2.vo", "C04/ProofsDet3.vo"]
-TARGETS = ["Base/Num.vo", "Base/Corr.vo", "C04/Model.vo", "C04/Corr.vo", "C04/Spec.vo", "C04/SpecTest.vo"] + \
+TARGETS = ["Base/Num.vo", "Base/Corr.vo", "C04/Model.vo", "C04/Model2.vo", "C04/Corr.vo", "C04/Spec.vo", "C04/SpecTest.vo"] + \
           [p for p in PROOFS if os.path.exists(os.path.join(vlib.COQ, p[:-1]))] + ["C04/Props.vo"]
 PROPS = ["C04/Props.v"]
 PARTIAL = ("Theorems are over an arbitrary field (exact arithmetic) about the hand-written model coq/C04/Model.v (full Gauss-Jordan "
@@ -69,16 +69,6 @@ def hunt(ctx, binary, bad):
     return None
 
 
-def _prefix(msk):
-    seen_false = False
-    for v in msk or []:
-        if not v:
-            seen_false = True
-        elif seen_false:
-            return False
-    return True
-
-
 def all_known():
     fs = list(vlib.known_findings("C04"))
     pp = os.path.join(vlib.ROOT, "corpus/C04/known_findings_proposed.json")
@@ -97,10 +87,6 @@ def known(failure, case):
         if w.get("failure_contains") and w["failure_contains"] not in failure:
             continue
         if "mode" in w and w["mode"] != case.get("mode", 0):
-            continue
-        if w.get("insitua") and not case.get("insitua"):
-            continue
-        if w.get("nonprefix_mask") and _prefix(case.get("msk")):
             continue
         return f
     return None
